@@ -225,3 +225,7 @@ def run(prop: str, tier_: str) -> int:
                       "live class objects of both packages imported in separate interpreters (fields, annotations, metadata, defaults, class vars, dataclass options); "
                       "plus the independent API table; thorough re-runs the generator with shuffled definition order; distinct = shipped classes compared",
                       floor_ok)
+
+
+def replay(prop: str, path: str) -> int:
+    return common.replay_by_rerun(prop, path, run)
